@@ -199,14 +199,13 @@ int evaluate_module(void *data, const char *key, void *value) {
     }
 
     /* Check if module should be started */
-    int ret = 0;
     if (m_mod_is(mod, M_MOD_IDLE)) {
-        ret = optional_hook(mod, MOD_EVAL);
-        if (ret == 0) {
+        if (optional_hook(mod, MOD_EVAL) == 0) {
             start(mod, true);
         }
     }
-    return ret;
+    /* Never stop evaluating subsequent modules because of this module's on_eval() result */
+    return 0;
 }
 
 int start(m_mod_t *mod, bool starting) {
